@@ -45,6 +45,9 @@ func Sign(ctx context.Context, r io.Reader, cert *certloader.Certificate, hashTy
 		return nil, nil, errors.New("missing xar/toc element")
 	}
 	origSigSize := removeSigs(toc)
+	if hdr.CompressedSize < 0 || origSigSize < 0 || origSigSize > 10e6 {
+		return nil, nil, errors.New("invalid signature size in TOC")
+	}
 	// reserve space for new signatures and insert elements into TOC
 	newSigSize := reserveSignatures(toc, hashType, cert.Certificates)
 	// verify and discard remaining input files
